@@ -93,7 +93,7 @@ class C08(Prop):
     budgets = {"quick": 250, "thorough": 4000}
 
     @staticmethod
-    def _sibling_nested_binding(rng: random.Random) -> dict:
+    def _sibling_nested_binding(rng: random.Random, plain: str = "none") -> dict:
         """Two sibling NESTED graphs share an input name and only one binds it inside: the outer spec reports the name as bound, so a call
         supplying the required inputs is accepted and completes — the un-binding sibling receives that value like a plain sibling would."""
         fn = gen._fn_node
@@ -101,8 +101,9 @@ class C08(Prop):
         g1 = {"name": "g1", "nodes": [fn("scale", [["k", None], ["x", None]], ["a"], {"b": "tag", "t": "scale"})], "bound": [["k", v]]}
         g2 = {"name": "g2", "nodes": [fn("offset", [["k", None], ["u", None]], ["s"], {"b": "tag", "t": "offset"})], "bound": []}
         top = [{"name": "g1", "kind": "graph", "inner": 0}, {"name": "g2", "kind": "graph", "inner": 1}]
-        if rng.random() < 0.5:
-            top.append(fn("third", [["k", None]], ["t"], {"b": "tag", "t": "third"}))
+        if plain != "none":
+            # a PLAIN consumer of the name too, listed before or after the nested graphs: whichever consumer is listed first, the name is bound
+            top.insert(0 if plain == "first" else len(top), fn("third", [["k", None]], ["t"], {"b": "tag", "t": "third"}))
         # (the binding sibling listed FIRST: which of two DIFFERENT inner bindings surfaces is the recorded finding C02-F3)
         return {"program": [g1, g2, {"name": "root", "nodes": top, "bound": []}], "values": [["x", rng.randint(0, 3)], ["u", rng.randint(0, 3)], ["k", rng.randint(10, 19)]]}
 
@@ -126,8 +127,8 @@ class C08(Prop):
         for _ in range(3):      # whatever the seed
             c = self._renamed_onto_bound_name(rng)
             yield {"program": copy.deepcopy(c["program"]), "known": c["values"], "rtselect": None, "ops": {"renamedOntoBound": 1}, "runner": rng.choice(["sync", "async"])}
-        for _ in range(2):      # whatever the seed
-            c = self._sibling_nested_binding(rng)
+        for plain in ("first", "none", "last"):      # whatever the seed
+            c = self._sibling_nested_binding(rng, plain)
             for runner in ("sync", "async"):
                 yield {"program": copy.deepcopy(c["program"]), "known": c["values"], "rtselect": None, "ops": {"siblings": 1}, "runner": runner}
         forced = [0.05, 0.14, 0.17, 0.18, 0.18, 0.18, 0.18, 0.18, 0.23, 0.265, 0.265, 0.275, 0.275, 0.285] * 2      # every dedicated family, whatever the seed
